@@ -1584,6 +1584,14 @@ def ix_(*seqs):
     return tuple(out)
 
 
+def broadcast_to(a, shape, subok=False):
+    a = asarray(a)
+    shape = _shape_arg(shape)
+    if len(a.shape) > len(shape) or _broadcast_shapes(a.shape, shape) != tuple(shape):
+        raise ValueError("operands could not be broadcast together with remapped shapes [original->remapped]: %s and requested shape %s" % (a.shape, tuple(shape)))
+    return ndarray._new(list(_broadcast_flat(a, shape)), shape, a.dt)
+
+
 def unravel_index(i, shape):
     i = _index(i)
     shape = tuple(shape)
